@@ -195,6 +195,7 @@ KIND2PROP = {
     "fser": "C11", "fparse": "C11", "freduce": "C11", "fserflags": "C11", "fdeserflags": "C11", "ffromstr": "C11",
     "fdisplay": "C11", "fcmp": "C11", "fhash": "C11",
     "konst": "C17",
+    "pair": "C12",
 }
 
 
